@@ -36,3 +36,70 @@ Print Assumptions C16_element_meaning.
 Theorem C16_hypothesis_satisfiable :
   Forall safe_kp [KIndex (-7); KName [110; 97; 109; 101]; KQuoted [113; 32; 110]; KIndex 0].
 Proof. exact key_paths_roundtrip_example. Qed.
+
+(* ---- the documented syntax, as a grammar (KeyPathGrammar.v, written from the property text and key_path.txt):
+        ws "{" ws element ws *( "," ws element ws ) "}" ws   |   ws "{" ws "}" ws
+        element = signed i32 integer (index) | JSON string literal in double quotes (quoted name, escapes decoded)
+                | non-empty run of name characters not starting with a digit (plain name)
+   Productions named X_..: what is accepted beyond the property text (explicit plus sign on an index; backslash escapes
+   inside a plain name, decoded like those of a quoted name). *)
+From Coq Require Import Lia.
+From JB Require Import JsonGrammar KeyPathGrammar KeyPathGrammarProofs.
+
+Theorem C16_every_documented_key_path_is_accepted_with_its_meaning :
+  forall t ks, kp_text t ks -> parse_key_paths t = Ok ks.
+Proof. exact key_path_grammar_complete. Qed.
+Print Assumptions C16_every_documented_key_path_is_accepted_with_its_meaning.
+
+Theorem C16_nothing_else_is_accepted :
+  forall t ks, parse_key_paths t = Ok ks -> kp_text t ks.
+Proof. exact key_path_grammar_sound. Qed.
+Print Assumptions C16_nothing_else_is_accepted.
+
+(* so every text outside the grammar is an error, not a panic *)
+Theorem C16_everything_else_is_an_error :
+  forall t, (forall ks, ~ kp_text t ks) -> exists e, parse_key_paths t = Err e.
+Proof. exact key_path_rejected. Qed.
+Print Assumptions C16_everything_else_is_an_error.
+
+(* the grammar is not vacuous: ` { 1 ,a, "b" }` is in it, with the elements index 1, name a, quoted name b *)
+Example C16_grammar_instance : kp_text [32; 123; 32; 49; 32; 44; 97; 44; 32; 34; 98; 34; 32; 125] [KIndex 1; KName [97]; KQuoted [98]].
+Proof.
+  apply (KP_list [32] [32; 49; 32; 44; 97; 44; 32; 34; 98; 34; 32] _ []); [repeat constructor; tauto| |constructor].
+  apply (KEs_cons [32] [49] (KIndex 1) [32] [97; 44; 32; 34; 98; 34; 32]); try (repeat constructor; tauto).
+  - apply KE_index; [apply (SI_unsigned [49]); [discriminate|repeat constructor]|unfold in_i32; lia].
+  - apply (KEs_cons [] [97] (KName [97]) [] [32; 34; 98; 34; 32]); try (repeat constructor; tauto).
+    + apply KE_name; [|cbn; discriminate]. apply Bare; [discriminate| |reflexivity].
+      apply NB_char; [|constructor]. split; [|discriminate]. unfold name_delimiter. cbn. intuition discriminate.
+    + apply (KEs_one [32] [34; 98; 34] (KQuoted [98]) [32]); try (repeat constructor; tauto).
+      apply KE_quoted. apply (Str [98] [98]); [|reflexivity]. apply B_raw; [discriminate|discriminate|constructor].
+Qed.
+
+(* spacing variants of one list; a negative index; a quoted name with an escape; the empty path *)
+Example C16_spacing_variants :
+  parse_key_paths [123; 49; 44; 97; 125] = Ok [KIndex 1; KName [97]] /\
+  parse_key_paths [32; 9; 123; 10; 49; 13; 44; 32; 32; 97; 9; 125; 10] = Ok [KIndex 1; KName [97]] /\
+  parse_key_paths [123; 45; 50; 125] = Ok [KIndex (-2)] /\
+  parse_key_paths [123; 34; 97; 92; 116; 92; 117; 48; 48; 52; 49; 34; 125] = Ok [KQuoted [97; 9; 65]] /\
+  parse_key_paths [32; 123; 32; 32; 125; 32] = Ok [].
+Proof. repeat split; vm_compute; reflexivity. Qed.
+
+(* rejections: no braces, missing closing brace, trailing comma, a sign-initial or digit-initial name, an integer beyond
+   i32, a space inside a plain name, something after the closing brace, an undefined escape in a plain name *)
+Example C16_rejections :
+  parse_key_paths [49; 44; 97] = Err EOther /\
+  parse_key_paths [123; 49; 44; 97] = Err EOther /\
+  parse_key_paths [123; 97; 44; 125] = Err EOther /\
+  parse_key_paths [123; 45; 97; 125] = Err EOther /\
+  parse_key_paths [123; 49; 97; 125] = Err EOther /\
+  parse_key_paths [123; 50; 49; 52; 55; 52; 56; 51; 54; 52; 56; 125] = Err EOther /\
+  parse_key_paths [123; 97; 32; 98; 125] = Err EOther /\
+  parse_key_paths [123; 97; 125; 120] = Err EOther /\
+  parse_key_paths [123; 97; 92; 46; 98; 125] = Err EOther.
+Proof. repeat split; vm_compute; reflexivity. Qed.
+
+(* the named extras, confirmed on the real crate: {+1} is index 1; {a\u0041} is the plain name aA *)
+Example C16_extras :
+  parse_key_paths [123; 43; 49; 125] = Ok [KIndex 1] /\
+  parse_key_paths [123; 97; 92; 117; 48; 48; 52; 49; 125] = Ok [KName [97; 65]].
+Proof. split; vm_compute; reflexivity. Qed.
